@@ -941,6 +941,44 @@ def run(ctx):
                 k = int(rng.integers(1, len(faces) + 1))
                 chosen = [faces[i] for i in rng.permutation(len(faces))[:k]]
                 conds = [(fc, g) for fc in chosen]
+                if nc is None and rng.integers(0, 2) == 0:
+                    # different data on every condition of one call (constants and functions mixed): two opposite faces, which
+                    # share no dof, so `combine_bcs`' "arbitrary" choice on shared dofs does not enter
+                    ax_ = int(rng.integers(0, d))
+                    chosen = [(ax_, 0), (ax_, 1)] if rng.integers(0, 2) else [(ax_, 1), (ax_, 0)]
+                    dat_ = [data(d, ['const', 'linear'][int(rng.integers(0, 2))]) for _f in chosen]
+                    gs_ = [x_[0] for x_ in dat_]
+                    evs_ = {fc[1]: x_[2] for fc, x_ in zip(chosen, dat_)}
+                    if np.isscalar(gs_[0]) and np.isscalar(gs_[1]) and gs_[0] == gs_[1]:
+                        gs_[1] = gs_[0] + 1.0
+                        evs_[chosen[1][1]] = (lambda pt, c_=gs_[1]: c_)
+                    conds = list(zip(chosen, gs_))
+                    k = 2
+                    def f(kvs=kvs, geo=geo, conds=conds):
+                        return fbc(*assemble.compute_dirichlet_bcs(kvs, geo, conds))
+                    try:
+                        body = ' '.join(cond_tokens(kvs, geo, fc, g_, None) for fc, g_ in conds)
+                    except Exception:
+                        continue
+                    rp2 = dict(rp, bdspec=chosen, data=['const %r' % g_ if np.isscalar(g_) else 'linear' for g_ in gs_])
+                    add('dbcs %s %d %s' % (plist(N), k, body), f, ('dbcs', rp2))
+                    ctx.case(req[-1]); ctx.count('dbcs'); ctx.count('dbcs: different data per condition')
+                    # model-free: every returned dof lies on one of the two faces and carries THAT face's data at its Greville point
+                    try:
+                        idx_, val_ = assemble.compute_dirichlet_bcs(kvs, geo, conds)
+                        ok_ = True
+                        for i_, v_ in zip(np.asarray(idx_).tolist(), np.asarray(val_).tolist()):
+                            mi_ = np.unravel_index(int(i_), tuple(N))[ax_]
+                            if mi_ not in (0, N[ax_] - 1):
+                                ok_ = False
+                                continue
+                            want_ = evs_[0 if mi_ == 0 else 1](greville_points(kvs, N, int(i_)))
+                            if not (abs(v_ - want_) <= 1e-12 * (1 + abs(want_)) * 64):
+                                ok_ = False
+                        float_checks.append(('compute_dirichlet_bcs with different data per condition', ok_, rp2))
+                    except Exception:
+                        float_checks.append(('compute_dirichlet_bcs raised', False, rp2))
+                    continue
                 def f(kvs=kvs, geo=geo, conds=conds):
                     return fbc(*assemble.compute_dirichlet_bcs(kvs, geo, conds))
                 try:
